@@ -19,10 +19,13 @@ class SpatialGradient2D:
         """Backpropagate through X spatial gradient of an array."""
         assert xbar.ndim == 2, 'This operator only works on 2D arrays.'
         end = xbar.shape[1]
+        # forward: out[j] = x[j+1] - x[j] on the interior samples j, so each
+        # interior xbar[j] flows to x[j+1] with +1 and to x[j] with -1
         ind_compute = slice(1, end-1)
-        ind_lookbehind = slice(0, end-2)
+        ind_lookahead = slice(2, end)
         out = np.zeros_like(xbar)
-        out[:, ind_compute] = xbar[:, ind_lookbehind] - xbar[:, ind_compute]
+        out[:, ind_lookahead] += xbar[:, ind_compute]
+        out[:, ind_compute] -= xbar[:, ind_compute]
         return out
 
     def forward_y(self, x):
@@ -40,7 +43,8 @@ class SpatialGradient2D:
         assert xbar.ndim == 2, 'This operator only works on 2D arrays.'
         end = xbar.shape[0]
         ind_compute = slice(1, end-1)
-        ind_lookbehind = slice(0, end-2)
+        ind_lookahead = slice(2, end)
         out = np.zeros_like(xbar)
-        out[ind_compute, :] = xbar[ind_lookbehind, :] - xbar[ind_compute, :]
+        out[ind_lookahead, :] += xbar[ind_compute, :]
+        out[ind_compute, :] -= xbar[ind_compute, :]
         return out
